@@ -1,6 +1,7 @@
 from __future__ import annotations
 
 import os
+import threading
 from typing import Any
 
 import duckdb
@@ -67,6 +68,8 @@ class FakeSnow:
         self.nop_regexes = nop_regexes
 
         self.duck_conn = duckdb.connect(database=":memory:")
+        # a connection bootstraps its database and schema with check-then-create steps, so only one at a time
+        self._connect_lock = threading.Lock()
 
         # create a "global" database for storing objects which span databases.
         self.duck_conn.execute(f"ATTACH IF NOT EXISTS ':memory:' AS {GLOBAL_DATABASE_NAME}")
@@ -80,13 +83,14 @@ class FakeSnow:
         # https://github.com/duckdb/duckdb/blob/18254ec/tools/pythonpkg/src/pyconnection.cpp#L1440
         # and to make connections thread-safe see
         # https://duckdb.org/docs/api/python/overview.html#using-connections-in-parallel-python-programs
-        return fakes.FakeSnowflakeConnection(
-            self.duck_conn.cursor(),
-            database,
-            schema,
-            create_database=self.create_database_on_connect,
-            create_schema=self.create_schema_on_connect,
-            db_path=self.db_path,
-            nop_regexes=self.nop_regexes,
-            **kwargs,
-        )
+        with self._connect_lock:
+            return fakes.FakeSnowflakeConnection(
+                self.duck_conn.cursor(),
+                database,
+                schema,
+                create_database=self.create_database_on_connect,
+                create_schema=self.create_schema_on_connect,
+                db_path=self.db_path,
+                nop_regexes=self.nop_regexes,
+                **kwargs,
+            )
